@@ -74,7 +74,7 @@ func (x *searcher) checkProtocol(s, n *State, o buildOpts, res *buildResult) {
 	if !o.Dry {
 		ev := evaluatingSet(res.Events)
 		for _, t := range s.V.targets() {
-			if ev[t] != res.Executed[t] {
+			if ev[t] != res.Executed[t] && !recordFault(res.Events, t) {
 				bad("evaluating-vs-body", fmt.Sprintf("%s: evaluating event=%v, body ran=%v", t, ev[t], res.Executed[t]))
 			}
 		}
@@ -162,6 +162,21 @@ func (x *searcher) checkDry(s, n *State, o buildOpts, res *buildResult) {
 		for t := range dry {
 			if !rl[t] && !down[t] {
 				bad("over-prediction", fmt.Sprintf("the dry run reported %s, which the (failing) real build did not attempt and which is not downstream of the failure", t))
+			}
+		}
+	}
+	// ... also on one and the same Project value (dry run, Reload, Run with nil options), as
+	// watch mode and library users drive it
+	if x.prop == "C13" {
+		var same *buildResult
+		x.withRoot(func(root string) {
+			writeTree(root, s.files())
+			same = dryThenRealSameProject(root, s.V, o.Target)
+		})
+		x.nBuilds.Add(1)
+		if same.LoadErr == nil {
+			if setString(same.Executed) != setString(real.Executed) || es(same.RunErr) != es(real.RunErr) {
+				bad("changes-next-build-same-project", fmt.Sprintf("on one Project value, the build after a dry run executed {%s}; a real build of the same tree executes {%s}", setString(same.Executed), setString(real.Executed)))
 			}
 		}
 	}
@@ -360,4 +375,15 @@ func (x *searcher) runBuildFiles(files map[string]string, v Vars, o buildOpts) *
 	})
 	x.nBuilds.Add(1)
 	return res
+}
+
+// recordFault: the target failed because build state could not be written (an injected I/O
+// fault, e.g. the temp directory was removed by another body), not because of its body.
+func recordFault(ev []Event, t string) bool {
+	for _, e := range ev {
+		if e.Kind == "Failed" && e.Label == t && strings.Contains(e.Err, ".dawn/build") {
+			return true
+		}
+	}
+	return false
 }
